@@ -84,16 +84,21 @@ def q(t):
     return (t // 1000) * 1000
 
 
-def tl_ping(role, I, T, t0, x, reaction, restart):
+def tl_ping(role, I, T, t0, x, reaction, restart, pre=None):
+    """pre: events delivered right after the handshake, before the first ping (e.g. the first fragment of a message, or
+    the head of a frame whose tail is the reaction)"""
     cfg = base_cfg(role=role, openTO=2000, closeTO=1000, dropTO=1000, t0=t0, pingInt=I, pingTO=T, restart=restart, pingSize=16)
     F1 = q(t0 + I)                       # first auto ping (only used to place the events; the oracle reads the real ping time)
-    evs = [["hs"], ["tick", F1]]
+    evs = [["hs"]] + [list(e) for e in (pre or [])] + [["tick", F1]]
     if reaction is not None:
         evs += [["tick", F1 + x], reaction]
     evs += [["tick", F1 + T + 125], ["tick", F1 + T + 8000], ["ownDrop"], ["tick", F1 + T + 9000]]
-    qualifies = reaction is not None and (reaction == ["peerPong", True] or (reaction[0] == "peerData" and restart))
+    # qualifying reactions: the matching pong; with autoPingRestartOnAnyTraffic the END of any data frame (unfragmented
+    # message, first / middle / last fragment, tail of a frame read in two pieces).  Not: ping, foreign pong, a frame head
+    qualifies = reaction is not None and (reaction == ["peerPong", True] or (reaction[0] in ("peerData", "peerFrag", "peerTail") and restart))
+    rk = "none" if reaction is None else ("/".join(str(v) for v in reaction) + ("+pre" if pre else ""))
     return dict(cfg=cfg, events=evs, meta=dict(timer="ping", T=T, I=I, reaction=(F1 + x) if qualifies else None,
-                                               rkind=(reaction or ["none"])[0] + ("" if qualifies or reaction is None else "(non-qualifying)")))
+                                               rkind=rk + ("" if qualifies or reaction is None else "(non-qualifying)")))
 
 
 def tl_periodic(role, I, T, t0, r, n, restart, with_data):
@@ -267,6 +272,14 @@ def families(quick):
                         for x in offsets(T, True):
                             L.append(tl_ping(role, I, T, t0, x, ["peerData"], restart))
                             L.append(tl_ping(role, I, T, t0, x, ["peerPong", False], restart))
+                        # every kind of incoming frame as the peer's only reaction
+                        for x in (offsets(T, True) if (I == 1000 or not quick) else []):
+                            L.append(tl_ping(role, I, T, t0, x, ["peerFrag", False, False], restart))
+                            L.append(tl_ping(role, I, T, t0, x, ["peerFrag", True, False], restart, pre=[["peerFrag", False, False]]))
+                            L.append(tl_ping(role, I, T, t0, x, ["peerFrag", True, True], restart, pre=[["peerFrag", False, False]]))
+                            L.append(tl_ping(role, I, T, t0, x, ["peerTail"], restart, pre=[["peerHead"]]))
+                            L.append(tl_ping(role, I, T, t0, x, ["peerHead"], restart))
+                            L.append(tl_ping(role, I, T, t0, x, ["peerPing"], restart))
     L = fam.setdefault("periodic", [])
     for role in roles:
         for I in (1000, 2000, 5000):
@@ -289,7 +302,8 @@ def families(quick):
 def run(ck):
     ck.rule.append("timelines on a 125 ms grid: for each timer (opening handshake, closing handshake, server TCP drop, auto-ping "
                    "timeout) x setting {0,1,2,5} s x role x start phase {0, 375(, 1875)} ms: the peer's reaction (handshake / bad "
-                   "handshake / close reply / TCP drop / matching pong / non-matching pong / data frame) placed at every grid point "
+                   "handshake / close reply / TCP drop / matching pong / non-matching pong / unfragmented data frame / first, middle, "
+                   "last fragment / head or tail of a frame read in two pieces / ping) placed at every grid point "
                    "from the arming time to 1 s after the deadline, or absent; periodic pings answered after {0,125,500,875} ms for "
                    "4 rounds; timers left pending across CLOSED. non-trivial = left CONNECTING or timed out; distinct = distinct "
                    "(framework, cfg, timeline)")
